@@ -162,7 +162,7 @@ def build_driver():
         rc, out = sh("ulimit -v 16000000; timeout 1500 make -j%d theories/Extract/Extract.vo" % NPROC, cwd=COQ, timeout=1600)
         if rc != 0:
             raise RuntimeError("extraction failed:\n" + out[-3000:])
-        srcs = [os.path.join(OCAML, f) for f in ("model.ml", "conv.ml", "driver.ml")]
+        srcs = [os.path.join(OCAML, f) for f in ("model.ml", "conv.ml", "explore.ml", "driver.ml")]
         if not os.path.exists(os.path.join(OCAML, "model.ml")):
             # Extract.vo is fresh but model.ml was removed: force re-extraction
             os.remove(os.path.join(COQ, "theories/Extract/Extract.vo"))
